@@ -7,8 +7,10 @@ package main
 
 import (
 	"bufio"
+	"context"
 	"encoding/json"
 	"fmt"
+	"go/token"
 	"go/types"
 	"os"
 	"sort"
@@ -22,6 +24,7 @@ type op struct {
 	Name   string `json:"name,omitempty"`
 	Prefix string `json:"prefix,omitempty"`
 	Path   string `json:"path,omitempty"`
+	Pname  string `json:"pname,omitempty"` // addvar: package name of the variable's type ("" with path "" = basic type)
 }
 
 type tcase struct {
@@ -55,10 +58,25 @@ func main() {
 			panic(err)
 		}
 	}
-	probe := func(s *template.MethodScope) []string {
+	// probe reports which names of the universe (plus the names this history itself has seen: extra) the
+	// scope says exist
+	inUniverse := map[string]bool{}
+	uniq := []string{}
+	for _, n := range in.Universe {
+		if !inUniverse[n] {
+			inUniverse[n] = true
+			uniq = append(uniq, n)
+		}
+	}
+	probe := func(s *template.MethodScope, extra map[string]bool) []string {
 		vis := []string{}
-		for _, n := range in.Universe {
+		for _, n := range uniq {
 			if s.NameExists(n) {
+				vis = append(vis, n)
+			}
+		}
+		for n := range extra {
+			if !inUniverse[n] && s.NameExists(n) {
 				vis = append(vis, n)
 			}
 		}
@@ -83,11 +101,15 @@ func main() {
 			panic(err)
 		}
 		scope := reg.MethodScope()
-		emit(map[string]any{"op": "reset", "case": ci, "inpkg": c.InPkg, "dst": c.Dst, "visible": probe(scope)})
+		extra := map[string]bool{}
+		var vars []*template.Var
+		typkgs := map[string]*types.Package{}
+		emit(map[string]any{"op": "reset", "case": ci, "inpkg": c.InPkg, "dst": c.Dst, "visible": probe(scope, extra)})
 		for _, o := range c.Ops {
 			switch o.Op {
 			case "add":
 				scope.AddName(o.Name)
+				extra[o.Name] = true
 				emit(map[string]any{"op": "add", "case": ci, "name": o.Name})
 			case "exists":
 				emit(map[string]any{"op": "exists", "case": ci, "name": o.Name, "res": scope.NameExists(o.Name)})
@@ -97,10 +119,50 @@ func main() {
 				}
 				emit(map[string]any{"op": "suggest", "case": ci, "prefix": o.Prefix, "res": scope.SuggestName(o.Prefix)})
 			case "alloc":
-				emit(map[string]any{"op": "alloc", "case": ci, "prefix": o.Prefix, "res": scope.AllocateName(o.Prefix)})
+				r := scope.AllocateName(o.Prefix)
+				extra[r] = true
+				emit(map[string]any{"op": "alloc", "case": ci, "prefix": o.Prefix, "res": r})
 			case "import":
 				p := reg.AddImport(o.Name, o.Path)
-				emit(map[string]any{"op": "import", "case": ci, "name": o.Name, "path": o.Path, "nil": p == nil, "res": p.Qualifier()})
+				emit(map[string]any{"op": "import", "case": ci, "name": o.Name, "path": o.Path, "rpath": p.Path(), "nil": p == nil, "res": p.Qualifier()})
+			case "addvar":
+				// the real MethodScope.AddVar on a go/types variable: a parameter named o.Name of the named type T
+				// declared in package (o.Pname, o.Path), or of type string when no package is given
+				var typ types.Type = types.Typ[types.String]
+				if o.Path != "" {
+					tp := typkgs[o.Path]
+					if tp == nil {
+						tp = types.NewPackage(o.Path, o.Pname)
+						typkgs[o.Path] = tp
+					}
+					typ = types.NewNamed(types.NewTypeName(token.NoPos, tp, "T", nil), types.NewStruct(nil, nil), nil)
+				}
+				v, err := scope.AddVar(context.Background(), types.NewParam(token.NoPos, nil, o.Name, typ), "", nil)
+				if err != nil {
+					panic(err)
+				}
+				vars = append(vars, v)
+				ev := map[string]any{"op": "addvar", "case": ci, "name": o.Name, "pname": o.Pname, "path": o.Path,
+					"rpath": "", "nil": false, "q": "", "res": v.Name, "tstr": v.TypeString(),
+					"tident": token.IsIdentifier(v.TypeString())} // the type's name is itself an identifier (in-package or predeclared type)
+				if o.Path != "" {
+					// what the file registry reports for the package AddVar imported (AddImport is stable by contract)
+					p := reg.AddImport(o.Pname, o.Path)
+					ev["rpath"], ev["nil"], ev["q"] = p.Path(), p == nil, p.Qualifier()
+					extra[p.Qualifier()] = true
+				}
+				extra[v.Name] = true
+				extra[v.TypeString()] = true
+				ev["visible"] = probe(scope, extra)
+				emit(ev)
+			case "resolve":
+				scope.ResolveVariableNameCollisions(context.Background())
+				names := []string{}
+				for _, v := range vars {
+					names = append(names, v.Name)
+					extra[v.Name] = true
+				}
+				emit(map[string]any{"op": "resolve", "case": ci, "names": names, "visible": probe(scope, extra)})
 			case "imports":
 				paths := []string{}
 				quals := []string{}
@@ -114,7 +176,8 @@ func main() {
 				emit(map[string]any{"op": "qual", "case": ci, "path": o.Path, "found": err == nil, "res": q})
 			case "newscope":
 				scope = reg.MethodScope()
-				emit(map[string]any{"op": "newscope", "case": ci, "visible": probe(scope)})
+				vars = nil
+				emit(map[string]any{"op": "newscope", "case": ci, "visible": probe(scope, extra)})
 			default:
 				panic("unknown op " + o.Op)
 			}
@@ -141,7 +204,7 @@ func main() {
 				if j >= len(er) || er[j]["op"] != e["op"] {
 					break
 				}
-				for _, k := range []string{"res", "quals", "visible", "found", "nil"} {
+				for _, k := range []string{"res", "quals", "visible", "found", "nil", "names", "rpath"} {
 					if v, ok := er[j][k]; ok {
 						e[k+"_erased"] = v
 					}
